@@ -11,6 +11,8 @@ import DracoModel.IO.Check
    obj_rt <asMesh> <geom>    → <file canon> | <decoded>    ObjEncoder / ObjDecoder
    stl_dec <hex> | ply_dec <asMesh> <hex> | obj_dec <asMesh> <hex>   → <decoded>   readers on arbitrary files
    obj_nums <bits,…>         → <bits,…>                    print (`%F`) then `parser::ParseFloat`, per value
+   obj_print <bits,…>        → <hex text,…>                the characters `snprintf("%F")` leaves in the 20-byte buffer
+   obj_parse <hex text,…>    → <bits>:<consumed> | ?       `parser::ParseFloat` on arbitrary tokens
    io_check <geom>           → flags of the executable C15 checkers of DracoModel/IO/Check.lean (model only)
 
    <decoded> = canonical geometry text | ERR (the C++ reports failure) | ERR:unsupported | ERR:ub (outside the model).
@@ -84,6 +86,14 @@ def ioRun : List String → String
     ioGeomOut (Obj.decodeE Obj.f32Codec (am == "1") (Obj.lex (ioStringOfBytes (bytesOfHex h))))
   | ["obj_nums", l] =>
     ",".intercalate ((natList l).map (fun b => objTokBits (Obj.f32Codec.print b)))
+  | ["obj_print", l] =>
+    ",".intercalate ((natList l).map (fun b => hexOfBytes ((Obj.fmtF b).toList.map Char.toNat)))
+  | ["obj_parse", l] =>
+    ",".intercalate ((l.splitOn ",").map (fun h =>
+      let cs := (bytesOfHex h).map Char.ofNat
+      match Obj.parseFloat cs with
+      | some (b, rest) => s!"{b}:{cs.length - rest.length}"
+      | none => "?"))
   | "io_check" :: rest =>
     match Geometry.ofTokens rest with
     | none => "bad-op"
@@ -93,7 +103,7 @@ def ioRun : List String → String
   | _ => "bad-op"
 
 def ioOps : List (String × (List String → String)) :=
-  ["stl_rt", "ply_rt", "obj_rt", "stl_dec", "ply_dec", "obj_dec", "obj_nums", "io_check"].map fun op =>
+  ["stl_rt", "ply_rt", "obj_rt", "stl_dec", "ply_dec", "obj_dec", "obj_nums", "obj_print", "obj_parse", "io_check"].map fun op =>
     (op, fun args => ioRun (op :: args))
 
 end Draco.Ops
